@@ -4,6 +4,7 @@ import (
 	"fmt"
 	"go/constant"
 	"go/token"
+	"go/types"
 	"regexp"
 	"sort"
 	"strconv"
@@ -70,7 +71,7 @@ type State struct {
 	Facts map[string]Rel
 	Trail []*ssa.BasicBlock
 	Snap  map[*ssa.Alloc]ssa.Value // cell contents just before the function's deferred calls ran
-	Outer *State // state at the closure creation site (for nested exploration), for witness only
+	Outer *State                   // state at the closure creation site (for nested exploration), for witness only
 }
 
 // NewState creates an empty state for fn.
@@ -256,6 +257,10 @@ func (s *State) SetRel(x, y ssa.Value, rel Rel) bool {
 	if kx == ky {
 		return rel&EQ != 0
 	}
+	// a freshly made value is never nil
+	if ky == "nil" && structNonNil(cx) || kx == "nil" && structNonNil(cy) {
+		return rel&NE != 0
+	}
 	if kx > ky {
 		kx, ky = ky, kx
 		rel = flip(rel)
@@ -274,7 +279,6 @@ func (s *State) SetRel(x, y ssa.Value, rel Rel) bool {
 	}
 	return true
 }
-
 
 // IsNil / NonNil report the path knowledge about v.
 func (s *State) IsNil(v ssa.Value) bool {
@@ -403,7 +407,7 @@ type Explorer struct {
 	// OnInstr is called for every instruction along every explored path; returning false ends the path.
 	OnInstr func(s *State, ins ssa.Instruction) bool
 	// OnEdge, when set, is consulted before following the i-th successor; returning false prunes it.
-	OnEdge func(s *State, from *ssa.BasicBlock, succ int) bool
+	OnEdge   func(s *State, from *ssa.BasicBlock, succ int) bool
 	volatile map[*ssa.Alloc]bool
 	volDone  map[*ssa.Alloc]bool
 	keyIDc   map[string][]int
@@ -720,4 +724,70 @@ func (s *State) Executed(at ssa.Instruction, pred func(ins ssa.Instruction) bool
 		return s.Outer.Executed(nil, pred)
 	}
 	return false
+}
+
+// ExecutedSince is Executed restricted to the part of the current function's path after the most recent
+// execution of instruction `since` (used for per-iteration ordering rules in loops).
+func (s *State) ExecutedSince(at, since ssa.Instruction, pred func(ins ssa.Instruction) bool) bool {
+	start := -1
+	for i := len(s.Trail) - 1; i >= 0; i-- {
+		if s.Trail[i] == since.Block() {
+			start = i
+			break
+		}
+	}
+	if start < 0 {
+		return false
+	}
+	after := false
+	for i := start; i < len(s.Trail); i++ {
+		b := s.Trail[i]
+		for _, ins := range b.Instrs {
+			if ins == at && i == len(s.Trail)-1 {
+				return false
+			}
+			if ins == since && i == start {
+				after = true
+				continue
+			}
+			if after && pred(ins) {
+				return true
+			}
+		}
+	}
+	return false
+}
+
+// IsFieldLoad reports whether v (canonical) is a load of the given struct field.
+func IsFieldLoad(v ssa.Value, fv *types.Var) bool {
+	u, ok := v.(*ssa.UnOp)
+	if !ok || u.Op != token.MUL || fv == nil {
+		return false
+	}
+	f := FieldOfAddr(u.X)
+	return f != nil && f.Origin() == fv
+}
+
+// SelectSend returns the (channel, value) of the send case of a select instruction, if any.
+func SelectSend(ins ssa.Instruction) (ch, val ssa.Value, ok bool) {
+	switch x := ins.(type) {
+	case *ssa.Select:
+		for _, st := range x.States {
+			if st.Dir == types.SendOnly {
+				return st.Chan, st.Send, true
+			}
+		}
+	case *ssa.Send:
+		return x.Chan, x.X, true
+	}
+	return nil, nil, false
+}
+
+// structNonNil: values that are non-nil by construction.
+func structNonNil(v ssa.Value) bool {
+	switch v.(type) {
+	case *ssa.Alloc, *ssa.MakeInterface, *ssa.MakeClosure, *ssa.MakeMap, *ssa.MakeSlice, *ssa.MakeChan, *ssa.Function, *ssa.FieldAddr, *ssa.IndexAddr:
+		return true
+	}
+	return ResultCallTo(v, nonNilErrMakers...) != nil
 }
